@@ -36,6 +36,10 @@ type c13item struct {
 
 type c13model struct {
 	m map[string]*c13item
+	// redis: the recorded differences of the Redis backend on hashes are built in (used only to attribute
+	// a divergence to them): a hash whose last field is deleted is no key at all, and SetHash gives the
+	// key the default lifetime again whenever the hash holds exactly one field afterwards
+	redis bool
 }
 
 func (md *c13model) live(k string, now time.Time) *c13item {
@@ -343,6 +347,9 @@ func (md *c13model) step(o c13op, now time.Time) []string {
 			return nil // overwriting a non-hash with a hash field: unspecified
 		}
 		it.hash[o.Field] = o.Val
+		if md.redis && len(it.hash) == 1 {
+			it.exp, it.impl = now.Add(24*time.Hour), true
+		}
 		return []string{"ok"}
 	case "GetHash":
 		if it == nil {
@@ -375,6 +382,9 @@ func (md *c13model) step(o c13op, now time.Time) []string {
 			return []string{"invalidtype", "err"}
 		}
 		delete(it.hash, o.Field)
+		if md.redis && len(it.hash) == 0 {
+			delete(md.m, o.Key)
+		}
 		return []string{"ok"}
 	case "IncrBy":
 		if it == nil {
@@ -428,7 +438,7 @@ func c13gen(c *simrt.Choice, uniq *int, keys []string) c13op {
 	case 'l':
 		ops = []string{"GetList", "Append", "Append", "Remove", "SetList", "Delete", "Exists", "SetExpiration", "GetExpiration"}
 	case 'h':
-		ops = []string{"SetHash", "GetHash", "GetAllHash", "DeleteHash", "Delete", "Exists", "SetHash"}
+		ops = []string{"SetHash", "GetHash", "GetAllHash", "DeleteHash", "Delete", "Exists", "SetHash", "SetExpiration", "GetExpiration"}
 	case 'c':
 		ops = []string{"IncrBy", "IncrBy", "Delete", "Exists", "SetExpiration", "GetExpiration"}
 	}
@@ -499,13 +509,14 @@ func c13Sequential(w *simrt.World, withRedis bool) {
 		w.Probe("mode.memory-vs-model")
 	}
 	md := &c13model{m: map[string]*c13item{}}
-	mdR := &c13model{m: map[string]*c13item{}}
+	mdR := &c13model{m: map[string]*c13item{}, redis: true}
 	n := 10 + c.Intn(51, "nops")
 	uniq := 0
 	last := map[string]string{} // last value written per scalar key
 	prev := map[string]string{}
 	emptied := map[string]bool{}
 	rearmed := map[string]bool{}
+	hrearm := map[string]bool{}
 	tainted := map[string]bool{}
 	var hist []string
 	for i := 0; i < n; i++ {
@@ -578,11 +589,20 @@ func c13Sequential(w *simrt.World, withRedis bool) {
 			w.Probe("unspecified.skipped")
 			return
 		}
+		if it := md.m[o.Key]; it != nil && it.kind == "hash" && len(it.hash) == 0 {
+			emptied[o.Key] = true
+			w.Probe("hash.became-empty")
+		} else if it != nil && it.kind == "hash" && o.Op == "SetHash" && len(it.hash) == 1 && (cls == "live-forever" || cls == "live-ttl") {
+			// an existing hash that holds exactly one field after SetHash: Redis re-arms the default lifetime
+			hrearm[o.Key] = true
+			w.Probe("hash.single-field-after-SetHash-on-existing-key")
+		}
 		if it := md.m[o.Key]; it != nil && it.kind == "list" && len(it.list) == 0 {
 			emptied[o.Key] = true
 			w.Probe("list.became-empty")
 		} else if o.Op == "Set" || o.Op == "Delete" || o.Op == "SetList" {
 			emptied[o.Key] = false // the key was rewritten as a whole in both backends
+			hrearm[o.Key] = false
 		}
 		if o.Op == "IncrBy" && (cls == "live-forever" || cls == "live-ttl") && got == fmt.Sprintf("v:%d", o.N) {
 			// an existing counter whose new value happens to equal the increment
@@ -602,13 +622,21 @@ func c13Sequential(w *simrt.World, withRedis bool) {
 						// (wantR == nil: the Redis-flavoured reference leaves the answer open, e.g. the
 						// implementation-chosen lifetime of a list re-created by an append)
 						sig = "C13:diff:empty-list-is-not-a-key-in-redis"
+						if o.Key[0] == 'h' {
+							sig = "C13:diff:empty-hash-is-not-a-key-in-redis"
+						}
 					} else if o.Op == "GetList" && (cls == "absent" || cls == "expired") {
 						sig = "C13:diff:GetList-of-missing-key"
+					} else if o.Op == "GetAllHash" && (cls == "absent" || cls == "expired") && rg == "v:{}" {
+						sig = "C13:diff:GetAllHash-of-missing-key"
+					} else if hrearm[o.Key] && (c13Explained(wantR, rg) || (wantR == nil && strings.HasPrefix(rg, "v:"))) {
+						sig = "C13:diff:redis-SetHash-rearms-lifetime-of-single-field-hash"
 					}
 					w.Violationf(sig,
 						"memory answered %s but redis answered %s for %s (key state %s) after history:\n%s", got, rg, o, cls, strings.Join(tailStr(hist, 25), "\n"))
 					// a classified root cause: stop comparing this key (its state now differs) but go on with the others
-					if strings.HasPrefix(sig, "C13:diff:GetList-of") || sig == "C13:diff:empty-list-is-not-a-key-in-redis" {
+					if strings.HasPrefix(sig, "C13:diff:GetList-of") || strings.HasPrefix(sig, "C13:diff:GetAllHash-of") || sig == "C13:diff:empty-list-is-not-a-key-in-redis" || sig == "C13:diff:empty-hash-is-not-a-key-in-redis" ||
+						sig == "C13:diff:redis-SetHash-rearms-lifetime-of-single-field-hash" {
 						// no further state divergence (the second reference follows Redis on emptied lists)
 					} else if rearmed[o.Key] {
 						tainted[o.Key] = true
@@ -663,7 +691,9 @@ func c13Explained(wantR []string, rg string) bool {
 func c13Restricted(o c13op) bool {
 	switch o.Op {
 	case "Set", "Get", "Delete", "Exists", "SetNX", "CAS", "GetList", "Append", "Remove", "SetList", "IncrBy", "SetExpiration", "GetExpiration":
-		return o.Key[0] != 'h'
+		return true
+	case "SetHash", "GetHash", "GetAllHash", "DeleteHash":
+		return true // the stats counters and the typed repository keep hashes
 	}
 	return false
 }
@@ -770,11 +800,25 @@ func c13Concurrent(w *simrt.World) {
 	w.Probe("mode.concurrent-linearizability")
 	mem := simstore.NewMemory(w)
 	defer mem.Close()
+	// a third of the runs put the clients on the Redis backend (go-redis against miniredis inside the
+	// bubble): one storage operation is then one or several Redis commands, and other clients' commands
+	// can land between them. Only scalar and counter keys: their answers agree between the backends.
+	var backend types.Storage = mem
+	onRedis := c.Intn(3, "concurrent.backend") == 2
+	if onRedis {
+		rd := simstore.NewRedis(w)
+		defer rd.Close()
+		backend = rd.Storage
+		w.Probe("concurrent.on-redis")
+	}
 	nclients := 2 + c.Intn(3, "nclients")
 	per := 3 + c.Intn(6, "ops.per.client")
 	uniq := 0
 	// few keys so that operations collide
 	keys := []string{"s1", "l1", "h1", "c1"}
+	if onRedis {
+		keys = []string{"s1", "c1"}
+	}
 	nk := 1 + c.Intn(2, "nkeys")
 	base := c.Intn(len(keys), "key.base")
 	var plans [][]c13op
@@ -787,6 +831,9 @@ func c13Concurrent(w *simrt.World) {
 		for j := 0; j < per; j++ {
 			o := c13gen(c, &uniq, allowed)
 			o.TTL = []time.Duration{0, time.Hour}[c.Intn(2, "ttl2")]
+			if onRedis && (o.Op == "GetExpiration" || o.Op == "SetExpiration") {
+				o.Op = "Get" // lifetimes of counters differ between the backends (recorded difference)
+			}
 			if o.Op == "CAS" {
 				// expect a value another client may have written: values are v<N>
 				if c.Intn(2, "cas.nil") == 0 {
@@ -802,7 +849,7 @@ func c13Concurrent(w *simrt.World) {
 	// half of the runs: the keys start out expired but not yet swept (written with a 1 s lifetime, clock
 	// advanced past it) and one extra client runs the expiry sweep concurrently with the writers: by the
 	// contract an expired key is absent, so the sweep must never remove what a writer has just stored
-	if c.Intn(2, "expired.prelude") == 1 {
+	if !onRedis && c.Intn(2, "expired.prelude") == 1 {
 		for _, k := range allowed {
 			switch k[0] {
 			case 's':
@@ -833,7 +880,7 @@ func c13Concurrent(w *simrt.World) {
 			for _, o := range plans[ci] {
 				w.Yield("c13.invoke")
 				call := w.Stamp()
-				out := c13apply(mem, o)
+				out := c13apply(backend, o)
 				w.Yield("c13.return")
 				ret := w.Stamp()
 				results[ci] = append(results[ci], porcupine.Operation{ClientId: ci, Input: o, Call: call, Output: out, Return: ret})
@@ -870,7 +917,11 @@ func c13Concurrent(w *simrt.World) {
 			lines = append(lines, fmt.Sprintf("c%d [%d,%d] %s→%s", h.ClientId, h.Call, h.Return, h.Input.(c13op), h.Output))
 			ops[h.Input.(c13op).Op] = true
 		}
-		w.Violationf("C13:linearizability:"+c13BadKey(hist), "history is not linearizable:\n%s", strings.Join(lines, "\n"))
+		sfx := ""
+		if onRedis {
+			sfx = ":redis"
+		}
+		w.Violationf("C13:linearizability:"+c13BadKey(hist)+sfx, "history is not linearizable:\n%s", strings.Join(lines, "\n"))
 	case porcupine.Unknown:
 		w.Probe("porcupine.unknown")
 	default:
